@@ -5,11 +5,30 @@
  * capacity and contents, static or dynamic, handle array absent or present with an arbitrary assignment of pool handles
  * to slots); the contract's `requires` cuts the state space down to the representation invariant.  DFCC then checks the
  * real body against ensures + frame.  The sift loops, the clear loop, the 128-byte-slice loop of the element swap and
- * aws_is_mem_zeroed are unwound completely for the bound (unwinding assertions on). */
+ * aws_is_mem_zeroed are unwound completely for the bound (unwinding assertions on).
+ *
+ * Every function has one harness per queue MODE (the state space is the union of the modes):
+ *   _live   dynamic queue with a handle array
+ *   _plain  static or dynamic queue, storage present, no handle array
+ *   _nost   dynamic queue that has no storage yet (capacity 0, empty)   (push, pop, top, clear, clean_up only)
+ * A pointer that may be NULL or an object at a join point (handle array / storage present or not) makes every access
+ * through it 20-30 times more expensive in CBMC's encoding, hence one mode per harness. */
 #define VERIF_TRACK_ERRORS
 #include "contracts/priority_queue.h"
 #include "source/array_list.c"
+
+/* Ghost hook (the only instrumentation): the one call of aws_array_list_swap inside s_swap is routed through this
+ * function, which calls the REAL aws_array_list_swap with the same arguments and then moves the ghost cursor g_pos as the
+ * transposition (a b) does.  The library text is unchanged; no library state is touched.  Whether the real function
+ * actually moved the element the cursor points at is CHECKED by the contracts (the cursor slot must hold the ghost
+ * element afterwards), so a wrong element swap is not hidden by the hook. */
+static void pq_hook_array_list_swap(struct aws_array_list *list, size_t a, size_t b) {
+    aws_array_list_swap(list, a, b);
+    g_pos = g_pos == a ? b : (g_pos == b ? a : g_pos);
+}
+#define aws_array_list_swap pq_hook_array_list_swap
 #include "source/priority_queue.c"
+#undef aws_array_list_swap
 
 /* AWS_FATAL_PRECONDITION/-ASSERT and abort(): reaching them from a valid state is a failed obligation
  * ("the library does not abort on valid input"), not a silently pruned path */
@@ -23,26 +42,33 @@ void abort(void) {
     __CPROVER_assume(0);
 }
 
-#define PQ_GHOSTS() do { AL_GHOST_RESET(); g_on = true; g_pj = nondet_size_t(); g_ck = nondet_u8(); g_cb = nondet_u8(); g_cnt = nondet_size_t(); \
-        g_ki = nondet_size_t(); g_ki_key = nondet_u8(); g_ki_b = nondet_u8(); g_ki_bp = nondet_ptr(); \
+#define PQ_GHOSTS() do { AL_GHOST_RESET(); g_on = true; g_pj = nondet_size_t(); \
+        g_ki = nondet_size_t(); g_pos = nondet_size_t(); g_ki_key = nondet_u8(); g_ki_b = nondet_u8(); g_ki_bp = nondet_ptr(); \
         g_h = nondet_size_t(); g_h_idx = nondet_size_t(); g_h_inq = nondet_bool(); g_h_key = nondet_u8(); g_h_b = nondet_u8(); \
-        g_r_key = nondet_u8(); g_r_b = nondet_u8(); g_moved = nondet_bool(); \
-        g_last_error = nondet_int(); g_raise_count = nondet_int(); } while (0)
+        g_moved = nondet_bool(); g_last_error = nondet_int(); g_raise_count = nondet_int(); } while (0)
 
-/* arbitrary queue state (shape only; heap order, handle indices, witnesses come from the requires clauses).
- * g_rank[], g_nodes[] and the storage contents are nondeterministic. */
-static void pq_build(struct aws_priority_queue *q) {
+/* arbitrary queue state of the given mode (shape only; heap order, handle indices, witnesses come from the requires
+ * clauses).  g_rank[], g_nodes[] and the storage contents are nondeterministic. */
+enum pq_mode { PQ_LIVE, PQ_PLAIN, PQ_NOST };
+static void pq_build(struct aws_priority_queue *q, enum pq_mode mode) {
     size_t len = nondet_size_t(), cap = nondet_size_t(), bpcap = nondet_size_t();
-    bool dyn = nondet_bool(), live = nondet_bool();
-    __CPROVER_assume(len <= PQN && len <= cap && cap <= PQ_CAPMAX && (dyn || cap >= 1));
+    bool dyn = nondet_bool();
     q->pred = pq_rank_cmp;
-    q->container.alloc = dyn ? &g_pq_alloc : NULL;
     q->container.item_size = ISZ;
-    q->container.length = len;
-    q->container.current_size = cap * ISZ;
-    q->container.data = cap ? malloc(cap * ISZ) : NULL;
-    __CPROVER_assume(cap == 0 || q->container.data != NULL);
-    if (dyn && live) {
+    if (mode == PQ_NOST) {
+        q->container.alloc = &g_pq_alloc;
+        q->container.length = 0;
+        q->container.current_size = 0;
+        q->container.data = NULL;
+    } else {
+        __CPROVER_assume(len <= PQN && len <= cap && 1 <= cap && cap <= PQ_CAPMAX);
+        q->container.alloc = (dyn || mode == PQ_LIVE) ? &g_pq_alloc : NULL;
+        q->container.length = len;
+        q->container.current_size = cap * ISZ;
+        q->container.data = malloc(cap * ISZ);
+        __CPROVER_assume(q->container.data != NULL);
+    }
+    if (mode == PQ_LIVE) {
         __CPROVER_assume(bpcap >= 1 && len <= bpcap && bpcap <= PQ_CAPMAX);
         struct aws_priority_queue_node **bp = malloc(bpcap * PQ_PSZ);
         __CPROVER_assume(bp != NULL);
@@ -65,108 +91,125 @@ static void pq_build(struct aws_priority_queue *q) {
         q->backpointers.data = NULL;
     }
 }
+/* one harness per mode */
+#define H3(name) H2(name) void h_##name##_nost(void) { hb_##name(PQ_NOST); }
+#define H2(name) void h_##name##_live(void) { hb_##name(PQ_LIVE); } void h_##name##_plain(void) { hb_##name(PQ_PLAIN); }
 
 /* ---------------------------------------------------------------- internal mechanisms */
-void h_swap(void) {
+static void hb_swap(enum pq_mode m) {
     struct aws_priority_queue q; size_t a = nondet_size_t(), b = nondet_size_t();
-    PQ_GHOSTS(); pq_build(&q);
+    PQ_GHOSTS(); pq_build(&q, m);
+    size_t pos0 = g_pos;
     s_swap(&q, a, b);
-    if (a == b) CANARY("same slot"); else if (q.backpointers.data == NULL) CANARY("no handle array");
-    else if (g_h_inq && g_h_idx == a) CANARY("ghost handle swapped"); else CANARY("handle array");
+    if (pos0 == a) CANARY("cursor was on a"); else if (pos0 == b) CANARY("cursor was on b"); else CANARY("cursor elsewhere");
 }
-void h_sift_down(void) {
+H2(swap)
+static void hb_sift_down(enum pq_mode m) {
     struct aws_priority_queue q; size_t root = nondet_size_t();
-    PQ_GHOSTS(); pq_build(&q);
+    PQ_GHOSTS(); pq_build(&q, m);
     bool r = s_sift_down(&q, root);
-    if (!r) CANARY("stayed"); else if (root == 0 && q.container.length == PQN) CANARY("moved from the root of a full tree"); else CANARY("moved");
+    if (!r) CANARY("stayed"); else if (root == 0 && g_ki == 0 && g_pos > 2) CANARY("moved from the root to the last level"); else CANARY("moved");
 }
-void h_sift_up(void) {
+H2(sift_down)
+static void hb_sift_up(enum pq_mode m) {
     struct aws_priority_queue q; size_t index = nondet_size_t();
-    PQ_GHOSTS(); pq_build(&q);
+    PQ_GHOSTS(); pq_build(&q, m);
     bool r = s_sift_up(&q, index);
-    if (!r) CANARY("stayed"); else if (index == PQN - 1) CANARY("moved from the last slot"); else CANARY("moved");
+    if (!r) CANARY("stayed"); else if (index == PQN - 1 && g_ki == index && g_pos == 0) CANARY("moved from the last slot to the root"); else CANARY("moved");
 }
-void h_sift_either(void) {
+H2(sift_up)
+static void hb_sift_either(enum pq_mode m) {
     struct aws_priority_queue q; size_t index = nondet_size_t();
-    PQ_GHOSTS(); pq_build(&q);
+    PQ_GHOSTS(); pq_build(&q, m);
     s_sift_either(&q, index);
-    if (index == 0) CANARY("root"); else CANARY("inner");
+    if (index == 0) CANARY("root"); else if (g_ki == index && g_pos < index) CANARY("inner, went up");
+    else if (g_ki == index && g_pos > index) CANARY("inner, went down"); else CANARY("inner");
 }
-void h_remove_node(void) {
+H2(sift_either)
+static void hb_remove_node(enum pq_mode m) {
     struct aws_priority_queue q; size_t index = nondet_size_t(); uint8_t out[ISZ];
-    PQ_GHOSTS(); pq_build(&q);
+    PQ_GHOSTS(); pq_build(&q, m);
     int r = s_remove_node(&q, out, index);
     if (q.container.length == 0) CANARY("removed the only element"); else if (index == q.container.length) CANARY("removed the last slot");
-    else if (q.backpointers.data != NULL) CANARY("removed an inner slot, handles"); else CANARY("removed an inner slot, no handles");
+    else CANARY("removed an inner slot");
 }
+H2(remove_node)
 
 /* ---------------------------------------------------------------- public operations */
-void h_pop(void) {
+static void hb_pop(enum pq_mode m) {
     struct aws_priority_queue q; uint8_t out[ISZ];
-    PQ_GHOSTS(); pq_build(&q);
+    PQ_GHOSTS(); pq_build(&q, m);
     int r = aws_priority_queue_pop(&q, out);
     if (r != 0) CANARY("empty queue refused"); else if (q.container.length == PQN - 1) CANARY("popped from a full tree");
     else if (g_h_inq && g_h_idx == 0) CANARY("popped the ghost handle's element"); else CANARY("popped");
 }
-void h_remove(void) {
+H3(pop)
+static void hb_remove(enum pq_mode m) {
     struct aws_priority_queue q; uint8_t out[ISZ]; size_t h = nondet_size_t();
-    PQ_GHOSTS(); pq_build(&q);
+    PQ_GHOSTS(); pq_build(&q, m);
     __CPROVER_assume(h < PQK);
     int r = aws_priority_queue_remove(&q, out, &g_nodes[h]);
     if (r == 0) { if (h == g_h) CANARY("removed the ghost handle's element"); else CANARY("removed another element"); }
     else if (q.backpointers.data == NULL) CANARY("refused: queue never had handles");
     else if (g_nodes[h].current_index == SIZE_MAX) CANARY("refused: stale handle"); else CANARY("refused: index out of range");
 }
-void h_top(void) {
+H2(remove)
+static void hb_top(enum pq_mode m) {
     struct aws_priority_queue q; void *p;
-    PQ_GHOSTS(); pq_build(&q);
+    PQ_GHOSTS(); pq_build(&q, m);
     int r = aws_priority_queue_top(&q, &p);
     if (r == 0) CANARY("top"); else CANARY("empty queue refused");
 }
-void h_push_ref(void) {
+H3(top)
+static void hb_push_ref(enum pq_mode m) {
     struct aws_priority_queue q; uint8_t in[ISZ]; size_t h = nondet_size_t();
-    PQ_GHOSTS(); pq_build(&q);
+    PQ_GHOSTS(); pq_build(&q, m);
     struct aws_priority_queue_node *bp = h < PQK ? &g_nodes[h] : NULL;
-    bool was_live = q.backpointers.data != NULL, was_full = q.container.length * ISZ == q.container.current_size;
+    bool was_full = q.container.length * ISZ == q.container.current_size;
+    size_t len0 = q.container.length;
     int r = aws_priority_queue_push_ref(&q, in, bp);
     if (r == 0) {
-        if (bp && !was_live && q.container.length > 1) CANARY("first handle arrives in a non-empty queue");
-        else if (bp && was_live && was_full) CANARY("handle, storage grew");
-        else if (bp) CANARY("handle"); else if (was_live) CANARY("no handle, handle array live"); else CANARY("no handle");
+        if (bp && len0 > 0) CANARY("handle, non-empty queue"); else if (bp) CANARY("handle, empty queue");
+        else if (was_full) CANARY("no handle, storage grew"); else CANARY("no handle");
     } else if (was_full) CANARY("full static queue refused"); else CANARY("static queue refused a handle");
 }
-void h_push(void) {
+H3(push_ref)
+static void hb_push(enum pq_mode m) {
     struct aws_priority_queue q; uint8_t in[ISZ];
-    PQ_GHOSTS(); pq_build(&q);
+    PQ_GHOSTS(); pq_build(&q, m);
     bool was_full = q.container.length * ISZ == q.container.current_size;
     int r = aws_priority_queue_push(&q, in);
     if (r != 0) CANARY("full static queue refused"); else if (was_full) CANARY("pushed, storage grew"); else CANARY("pushed");
 }
-void h_clear(void) {
+H3(push)
+static void hb_clear(enum pq_mode m) {
     struct aws_priority_queue q;
-    PQ_GHOSTS(); pq_build(&q);
+    PQ_GHOSTS(); pq_build(&q, m);
     aws_priority_queue_clear(&q);
-    if (q.backpointers.data == NULL) CANARY("no handle array"); else if (g_h_inq) CANARY("ghost handle invalidated"); else CANARY("handle array");
+    if (g_h_inq) CANARY("ghost handle invalidated"); else CANARY("ghost handle outside");
 }
-void h_size(void) {
+H3(clear)
+static void hb_size(enum pq_mode m) {
     struct aws_priority_queue q;
-    PQ_GHOSTS(); pq_build(&q);
+    PQ_GHOSTS(); pq_build(&q, m);
     size_t n = aws_priority_queue_size(&q);
     if (n == 0) CANARY("empty"); else CANARY("non-empty");
 }
-void h_capacity(void) {
+H3(size)
+static void hb_capacity(enum pq_mode m) {
     struct aws_priority_queue q;
-    PQ_GHOSTS(); pq_build(&q);
+    PQ_GHOSTS(); pq_build(&q, m);
     size_t n = aws_priority_queue_capacity(&q);
     if (n == 0) CANARY("no storage"); else CANARY("storage");
 }
-void h_clean_up(void) {
+H3(capacity)
+static void hb_clean_up(enum pq_mode m) {
     struct aws_priority_queue q;
-    PQ_GHOSTS(); pq_build(&q);
-    bool was_live = q.backpointers.data != NULL;
+    PQ_GHOSTS(); pq_build(&q, m);
     aws_priority_queue_clean_up(&q);
-    if (was_live) CANARY("handle array released"); else CANARY("no handle array");
+    CANARY("returned");
 }
+H3(clean_up)
 
 /* ---------------------------------------------------------------- loop-free, any size (DFCC allocates the parameters) */
 void h_node_init(void) {
